@@ -29,7 +29,8 @@ class Payloads(object):
         from yowsup.layers.protocol_media.protocolentities import ImageDownloadableMediaMessageProtocolEntity, LocationMediaMessageProtocolEntity, \
             ContactMediaMessageProtocolEntity, ExtendedTextMediaMessageProtocolEntity
         from yowsup.layers.protocol_messages.protocolentities.attributes.attributes_message_meta import MessageMetaAttributes
-        marker = u"secret-%s-%08x" % (mid, self.rng.getrandbits(32))
+        marker = u"secret-%s-%08x" % (mid or "lib", self.rng.getrandbits(32))
+        # mid None: the id is left to the library, as applications do
         meta = MessageMetaAttributes(id=mid, recipient=recipient)
         gen, table = self.gen, self.table
         if kind == "text":
@@ -136,10 +137,16 @@ def run_script(script, payloads, roots, rng):
                 continue        # only members write to the group
             if k == "send":
                 nmsg += 1
-                mid = "m%d" % nmsg
                 dest = op[2]
                 to = w.gjid if dest == "G" else w.acc(dest).jid
-                ent, check, secrets = payloads.make(op[3], mid, to)
+                if script.get("library_ids"):
+                    ent, check, secrets = payloads.make(op[3], None, to)
+                    mid = ent.getId()
+                    if mid in w.mids:
+                        raise DuplicateId("message %d (%s) got the id %r, which the library already gave to message %d" % (nmsg, op[3], mid, w.mids[mid]))
+                else:
+                    mid = "m%d" % nmsg
+                    ent, check, secrets = payloads.make(op[3], mid, to)
                 w.do_submit(op[1], mid, dest, ent, check, secrets)
             elif k == "fault":
                 plan[(op[1], op[2])] = op[3]
@@ -196,6 +203,10 @@ def run_script(script, payloads, roots, rng):
     return w, outcome
 
 
+class DuplicateId(Exception):
+    pass
+
+
 class _Stillborn(object):
     """Stands in for a world whose accounts could not be started."""
     trace, shown, leaks, frames = [], [], [], []
@@ -228,6 +239,14 @@ def families(thorough, rng):
             add(3, [["fault", 1, "b", f], ["send", "a", "G", "text"], ["settle", p], ["send", "b", "G", "text"]], "group-first-%s" % f)
             add(3, [["send", "a", "G", "text"], ["settle", p], ["fault", 2, "c", f], ["send", "a", "G", "text"], ["settle", p], ["send", "c", "G", "text"]], "group-later-%s" % f)
             add(4, [["fault", 1, "d", f], ["send", "a", "G", "text"], ["settle", p], ["fault", 2, "a", f], ["send", "d", "G", "location"]], "group4-%s" % f)
+    # two messages of a burst both damaged on their way to the same recipient: both retry requests are with the author before its first
+    # key query is answered (server orders that deliver before they process), each is served
+    for p in pol:
+        add(2, [["fault", 1, "b", "corrupt"], ["fault", 2, "b", "corrupt"], ["send", "a", "b", "text"], ["send", "a", "b", "image"], ["settle", p], ["send", "b", "a", "text"]], "burst-both-corrupt")
+        add(2, [["send", "a", "b", "text"], ["settle", p], ["send", "b", "a", "text"], ["settle", p], ["fault", 3, "b", "corrupt"], ["fault", 4, "b", "corrupt"], ["fault", 5, "b", "dup"],
+                ["send", "a", "b", "text"], ["send", "a", "b", "location"], ["send", "a", "b", "text"], ["settle", p]], "burst-later-both-corrupt")
+        add(3, [["send", "a", "G", "text"], ["settle", p], ["fault", 2, "b", "corrupt"], ["fault", 3, "b", "corrupt"], ["fault", 3, "c", "corrupt"], ["send", "a", "G", "text"], ["send", "a", "G", "contact"],
+                ["settle", p]], "burst-group-both-corrupt")
     # restarts between messages
     for p in pol[:3] if not thorough else pol:
         add(2, [["send", "a", "b", "text"], ["settle", p], ["restart", "a"], ["send", "a", "b", "text"], ["settle", p], ["restart", "b"], ["send", "b", "a", "text"],
@@ -383,6 +402,8 @@ def run(only=None):
     runs = []
     try:
         for si, s in enumerate(scripts):
+            if si % 2 == 1 and only is None:
+                s["library_ids"] = True       # every second conversation leaves the message ids to the library
             w, o = run_script(s, payloads, roots, rng)
             w.close()
             runs.append((s, w, o))
